@@ -89,7 +89,9 @@ func loadBuiltins() {
 	sort.Strings(builtinNames)
 }
 
-var edgeInts = []string{"0", "1", "-1", "2", "63", "64", "65", "-64", "2147483648", "-2147483648", "9223372036854775807", "-9223372036854775808", "-9223372036854775807", "255", "1000000"}
+var edgeInts = []string{"0", "1", "-1", "2", "63", "64", "65", "-64", "2147483648", "-2147483648", "9223372036854775807", "-9223372036854775808", "-9223372036854775807", "255", "1000000",
+	// values whose scaling to nanoseconds / milliseconds wraps around int64
+	"36028797018963968", "4611686018427387904", "9223372037", "9223372036", "18446744073", "-9223372037", "9223372036854775"}
 var edgeFloats = []string{"0.0", "1.0", "-1.0", "0.5", "0.000001", "1e308", "-1e308", "1e-300", "123456789012345680000.0", "0.9", "-0.5", "1.7976931348623157e308"}
 var edgeRTimes = []string{"0s", "1s", "1ms", "9999999999s", "100000000h", "1y", "0ms", "-1s", "-9999999999s"}
 var edgeStrings = []string{`""`, `"a"`, `"abc"`, `"0"`, `"-1"`, `"1e309"`, `"!!!"`, `"%zz"`, `"("`, `"[a-"`, `"a,b;c=d"`, `"99999999999999999999999"`, `{"line1
@@ -161,6 +163,30 @@ func genArithStmts(t *rapid.T, n int) (string, []string) {
 	}
 	sort.Strings(names)
 	for i := 0; i < n; i++ {
+		if rapid.IntRange(0, 6).Draw(t, "concat") == 0 {
+			// string concatenation of 2-3 operands of any type, each optionally sign-prefixed
+			k := rapid.IntRange(2, 3).Draw(t, "noperands")
+			var ops []string
+			for j := 0; j < k; j++ {
+				var o string
+				if rapid.Bool().Draw(t, "opvar") {
+					o = rapid.SampledFrom(names).Draw(t, "opname")
+				} else {
+					o = drawArg(t, rapid.SampledFrom([]string{"STRING", "STRING", "INTEGER", "FLOAT", "RTIME", "TIME", "BOOL", "IP"}).Draw(t, "optype"))
+				}
+				switch rapid.IntRange(0, 5).Draw(t, "sign") {
+				case 0:
+					o = "-" + o
+				case 1:
+					o = "+" + o
+				}
+				ops = append(ops, o)
+			}
+			sep := rapid.SampledFrom([]string{" ", " + "}).Draw(t, "catsep")
+			fmt.Fprintf(&b, "set %s = %s;\n", rapid.SampledFrom([]string{"var.s1", "req.http.X-Cat", "var.s2"}).Draw(t, "cattarget"), strings.Join(ops, sep))
+			feat["concat"] = true
+			continue
+		}
 		tgt := rapid.SampledFrom(names).Draw(t, "target")
 		op := rapid.SampledFrom(allAssignOps).Draw(t, "op")
 		vt := c08Targets[tgt]
